@@ -10,7 +10,9 @@ ROOT = os.path.dirname(os.path.dirname(os.path.abspath(__file__)))
 REPO = os.environ.get("VERIF_REPO", "/repo")
 SPEC = os.path.join(ROOT, "spec")
 HARNESS = os.path.join(ROOT, "harness")
-EVID = os.path.join(ROOT, "evidence")
+# runs against a scratch checkout (VERIF_REPO) keep their work files and evidence apart from the real ones
+_SCRATCH = None if REPO == "/repo" else os.path.join("/root/scratch", "run-" + hashlib.sha1(REPO.encode()).hexdigest()[:10])
+EVID = os.path.join(ROOT, "evidence") if _SCRATCH is None else os.path.join(_SCRATCH, "evidence")
 REPLAYS = os.path.join(EVID, "replays")
 KNOWN_FILE = os.path.join(ROOT, "known_findings.json")
 
@@ -27,7 +29,7 @@ def seed():
 
 
 def workdir(pid):
-    d = os.path.join(ROOT, ".work", pid)
+    d = os.path.join(ROOT if _SCRATCH is None else _SCRATCH, ".work", pid)
     os.makedirs(d, exist_ok=True)
     return d
 
